@@ -1,13 +1,17 @@
 #!/bin/bash
-# soak: every quick check under many seeds on the unchanged tree; prints only failures. Usage: tools/soak.sh <from> <to>
+# soak: every quick check under many seeds on the unchanged tree, 8 seeds at a time; prints only failures.
+# Usage: tools/soak.sh <from> <to>      (with `vp run --with-repo` a private snapshot of /repo is used)
 cd "$(dirname "$0")/.." || exit 2
 (cd lean && lake build AJ ajdriver >/dev/null 2>&1)
-export AJ_EVIDENCE_DIR=$(mktemp -d) AJ_REPLAY_DIR=$(mktemp -d)
-[ -n "$VP_RUN_REPO" ] && export AJ_REPO=$VP_RUN_REPO   # a private snapshot of /repo when run with `vp run --with-repo`
-for seed in $(seq $1 $2); do
+[ -n "$VP_RUN_REPO" ] && export AJ_REPO=$VP_RUN_REPO
+one() {
+  seed=$1
+  export AJ_EVIDENCE_DIR=$(mktemp -d) AJ_REPLAY_DIR=$(mktemp -d)
   for i in $(seq -w 1 20); do
     out=$(VERIF_SEED=$seed ./check C$i --no-audit 2>&1); rc=$?
-    if [ $rc -ne 0 ]; then echo "== seed=$seed C$i rc=$rc"; echo "$out" | grep -E "VIOL|clause|mismatch|Error|Trace" | head -6; cp -r $AJ_REPLAY_DIR /tmp/soak-replays-$seed-$i 2>/dev/null; fi
+    if [ $rc -ne 0 ]; then echo "== seed=$seed C$i rc=$rc"; echo "$out" | grep -E "VIOL|clause|mismatch|Error|Trace" | head -6; mkdir -p /tmp/soak-replays; cp -r $AJ_REPLAY_DIR /tmp/soak-replays/$seed-C$i 2>/dev/null; fi
   done
   echo "seed $seed done"
-done
+}
+export -f one
+seq $1 $2 | xargs -P 8 -I{} bash -c 'one {}'
